@@ -372,15 +372,53 @@ def monitor(graph, script, obs):
     return out
 
 
-def overlapped(script):
-    """True iff some task is advanced while another one is between its first and last advance."""
-    first, last = {}, {}
-    for i, op in enumerate(script):
-        if op[0] == "run":
-            first.setdefault(op[1], i)
-            last[op[1]] = i
-    ivs = sorted((first[t], last[t]) for t in first)
-    return any(a2 < b1 for (a1, b1), (a2, b2) in zip(ivs, ivs[1:]))
+def active_intervals(trace):
+    """tid -> (index of its first advance, index of the advance after which it had ended; len(trace) if never)"""
+    iv = {}
+    for i, (a, tid, em, et) in enumerate(trace):
+        if a[0] != "run" or et == [-1]:
+            continue
+        if tid not in iv:
+            iv[tid] = [i, len(trace)]
+        if et[0] in (2, 3) and iv[tid][1] == len(trace):
+            iv[tid][1] = i
+    return iv
+
+
+def task_overlaps(trace, tid):
+    """True iff step invocation tid is in the middle of its resolution (started, not ended) at a moment at
+    which another invocation is, too."""
+    iv = active_intervals(trace)
+    if tid not in iv:
+        return False
+    a, b = iv[tid]
+    return any(t != tid and c <= b and a <= d for t, (c, d) in iv.items())
+
+
+def overlapped(trace):
+    return any(task_overlaps(trace, t) for t in active_intervals(trace))
+
+
+def stats_of(graph, script, obs):
+    st = dict(tasks=len(obs["status"]), done=0, cycle_errors=0, genuine_cycle_errors=0, factory_failures=0,
+              created=len(obs["created_log"]), cached_hits=0, rcache_hits=0, overlapped=int(overlapped(obs["trace"])),
+              cyclic_graph=int(any(reach_cycle(graph, x) for x in graph)), dup_dep=0, suspended_at_end=0)
+    params = {op[1]: op[2] for op in script if op[0] == "start"}
+    for tid, s_ in obs["status"].items():
+        if s_[0] == 2:
+            st["done"] += 1
+        elif s_[0] == 3 and s_[1] == 1:
+            st["cycle_errors"] += 1
+            if any(reach_cycle(graph, p) for p in params.get(tid, [])):
+                st["genuine_cycle_errors"] += 1
+        elif s_[0] == 3 and s_[1] == 2:
+            st["factory_failures"] += 1
+        elif s_[0] == 1:
+            st["suspended_at_end"] += 1
+    ninj = sum(len(g) for g in obs["got"].values()) + sum(len(a) for _, _, _, a in obs["created_log"])
+    st["cached_hits"] = max(0, ninj - st["created"])
+    st["dup_dep"] = int(any(len(set(nd["deps"])) < len(nd["deps"]) for nd in graph.values()))
+    return st
 
 
 # ---- the same failure through a real Workflow.run() ------------------------------------------------
